@@ -286,3 +286,14 @@ Definition interp_axis (newk : kind) (news : list label) (r : axref) (left right
   | [_] => Ok (mkarr [newax] out (attrs a))
   | _ => Ok (mkarr (set_nth i newax (axes a)) out (attrs a))
   end.
+
+(* ------------------------------------------------------------------ interp_like *)
+(* successive interp_axis over self's axes whose name is among the other object's axes (first match by name) *)
+Definition like_step (others : list (string * kind * list label)) (left right : cell) (acc : res darr) (nm : string) : res darr :=
+  let! o := acc in
+  match find (fun p => String.eqb (fst (fst p)) nm) others with
+  | Some (_, k, news) => interp_axis k news (ByName nm) left right o
+  | None => Ok o
+  end.
+Definition interp_like (others : list (string * kind * list label)) (left right : cell) (a : darr) : res darr :=
+  fold_left (like_step others left right) (map aname (axes a)) (Ok a).
